@@ -125,6 +125,12 @@ def run(model, tier="quick"):
     res.floor("constructors", do_and_init(model, res), 4)
     loop_phase(model, res)
     res.floor("obligations", len(res.obligations), 20)
+    # premise: the run starts with the triggers the strategy holds (registered in __init__ or from outside) plus those of
+    # initialize(): init_strategy does not touch the list
+    from . import C05 as _C05
+    effects_check(res, model, "Actuator.init_strategy", _C05.REF_INIT_STRATEGY,
+                  "init_strategy: strategy wiring, then initialize(); the trigger list the strategy holds is not reset",
+                  ["initialize", "notify", "setattr", "set_default_key"], aliases={"broker": "self._broker"}, ordered=True)
     from ..rules.fresh import fresh_rule
     if "R-FRESH" not in res.rules:
         res.rules.append("R-FRESH")
